@@ -1084,6 +1084,156 @@ def run_ti_pmf(c, tier):
         c.bump("ti_pmf_files_checked")
 
 
+def run_abf_merge(c, tier):
+    """End to end: a two-dimensional ABF / eABF bias is given gradient data through inputPrefix (one stratum of an earlier run:
+    .count/.grad, and .zcount/.zgrad/.czar.grad for eABF) and writes its output after a zero-step run (the documented way of
+    merging strata) or after a few steps.  For every free-energy file written next to a gradient file (.pmf/.grad and
+    .czar.pmf/.czar.grad) the discrete Laplacian of the surface equals the divergence of the gradients of that file (the
+    documented Poisson problem with its modified Neumann boundaries, independent implementation below) to the solver's
+    tolerance; the surface is not flat when the gradients are not; with the same data in both estimators the two surfaces agree."""
+    import ctl
+    rng = c.rng.__class__(c.seed * 7919 + 11)
+    ncases = 8 if tier == "quick" else 60
+    cases = []
+    for i in range(ncases):
+        nx, ny = rng.randint(5, 14), rng.randint(5, 12)
+        wx, wy = rng.choice([0.25, 0.5]), rng.choice([0.25, 0.5, 1.0])
+        x0, y0 = rng.choice([1.0, 2.0]), rng.choice([2.0, 3.0])
+        a1, a2, a3 = rng.uniform(1.0, 4.0), rng.uniform(0.4, 1.2), rng.uniform(0.3, 0.9)
+        cases.append(dict(idx=i, nx=nx, ny=ny, wx=wx, wy=wy, x0=x0, y0=y0, a=(a1, a2, a3), ext=(i % 4 != 3), nsteps=(0 if i % 2 == 0 else 3)))
+
+    def dA(case, x, y):
+        a1, a2, a3 = case["a"]
+        return (-a1 * a2 * math.sin(a2 * (x - 2.3)) * math.sin(a3 * (y - 1.0)) + 0.3 * (x - 4.0),
+                a1 * a3 * math.cos(a2 * (x - 2.3)) * math.cos(a3 * (y - 1.0)))
+
+    def write_in(case, wd):
+        def put(name, fn):
+            with open(os.path.join(wd, name), "w") as f:
+                f.write("# 2\n# %.14e %.14e %d 0\n# %.14e %.14e %d 0\n" % (case["x0"], case["wx"], case["nx"], case["y0"], case["wy"], case["ny"]))
+                for i in range(case["nx"]):
+                    f.write("\n")
+                    for j in range(case["ny"]):
+                        x = case["x0"] + (i + 0.5) * case["wx"]
+                        y = case["y0"] + (j + 0.5) * case["wy"]
+                        f.write(" %.14e %.14e  %s\n" % (x, y, fn(x, y)))
+        put("in.count", lambda x, y: "120")
+        put("in.grad", lambda x, y: "%.14e %.14e" % dA(case, x, y))
+        if case["ext"]:
+            put("in.zcount", lambda x, y: "120")
+            put("in.zgrad", lambda x, y: "%.14e %.14e" % dA(case, x, y))
+            put("in.czar.grad", lambda x, y: "%.14e %.14e" % dA(case, x, y))
+
+    def runner(case):
+        wd = os.path.join(c.work, "merge%d" % case["idx"])
+        os.makedirs(wd, exist_ok=True)
+        write_in(case, wd)
+        xl = "  extendedLagrangian on\n  extendedFluctuation 0.1\n  extendedTimeConstant 200\n  extendedTemp 300\n" if case["ext"] else ""
+
+        def cv(name, lo, w, n, a, b):
+            return ("colvar {\n  name %s\n  width %s\n  lowerBoundary %s\n  upperBoundary %s\n%s  distance {\n    group1 { atomNumbers %d }\n"
+                    "    group2 { atomNumbers %d }\n  }\n}\n" % (name, fnum(w), fnum(lo), fnum(lo + n * w), xl, a, b))
+        cfg = (cv("x", case["x0"], case["wx"], case["nx"], 1, 2) + cv("y", case["y0"], case["wy"], case["ny"], 3, 4) +
+               "abf {\n  name b\n  colvars x y\n  fullSamples 10\n  inputPrefix in\n  integrateTol 1e-10\n}\n")
+        scn = ctl.header("prev", extra="dt 1.0\ntemp 300.0") + "emit atoms off\nmodule\nprefix out\nconfig <<EOC\n" + cfg + "EOC\ninit\n"
+        scn += "step\n" * (case["nsteps"] + 1) + "endrun\n"
+        case["cfg"] = cfg
+        return common.run_esim("plain", scn, wd, "merge", timeout=300)
+
+    def read(path, mult):
+        hdr, rows = [], []
+        for line in open(path):
+            t = line.split()
+            if not t:
+                continue
+            if t[0] == "#":
+                hdr.append(t[1:])
+            else:
+                rows.append([float(v) for v in t])
+        sizes = [int(h[2]) for h in hdr[1:3]]
+        if len(rows) != sizes[0] * sizes[1]:
+            return None, None
+        return sizes, [[rows[i * sizes[1] + j][2:2 + mult] for j in range(sizes[1])] for i in range(sizes[0])]
+
+    for case, (r, ev, sp) in zip(cases, common.pmap(runner, cases)):
+        wd = os.path.dirname(sp)
+        c.count()
+        cls = "%s:%s" % ("eabf" if case["ext"] else "abf", "run0" if case["nsteps"] == 0 else "steps")
+        cfg_ev = [e for e in ev if e["ev"] in ("config", "init") and (e.get("rc") or e.get("err"))]
+        if not r["complete"] or cfg_ev:
+            if r["sig"]:
+                c.violation("merge:crash:" + cls, "signal %s: %s" % (r["sig"], r["err"][-300:]), [sp], payload={"config": case["cfg"]})
+            else:
+                c.inconc("merge case %s: %s" % (cls, (cfg_ev[0].get("errs") if cfg_ev else r["err"][-200:])))
+            continue
+        pairs = [("pmf", "grad")] + ([("czar.pmf", "czar.grad")] if case["ext"] else [])
+        surf = {}
+        bad = False
+        for pn, gn in pairs:
+            fp, fg = os.path.join(wd, "out." + pn), os.path.join(wd, "out." + gn)
+            if not (os.path.exists(fp) and os.path.exists(fg)):
+                c.violation("merge:file_missing:%s:%s" % (pn, cls), "2-D %s with inputPrefix: %s written: %s, %s written: %s" % (
+                    cls, "out." + pn, os.path.exists(fp), "out." + gn, os.path.exists(fg)), [sp], payload={"config": case["cfg"]})
+                bad = True
+                continue
+            gs, g = read(fg, 2)
+            ps, pm = read(fp, 1)
+            NX, NY = case["nx"], case["ny"]
+            if gs != [NX, NY] or ps != [NX + 1, NY + 1]:
+                c.violation("merge:grid_size:%s:%s" % (pn, cls), "gradient file sizes %s, surface sizes %s for a %dx%d grid" % (gs, ps, NX, NY), [sp, fp, fg])
+                bad = True
+                continue
+            wx, wy = case["wx"], case["wy"]
+
+            def grad(i, j):
+                return (0.0, 0.0) if (i < 0 or j < 0 or i >= NX or j >= NY) else g[i][j]
+            bn = rn = 0.0
+            for i in range(NX + 1):
+                for j in range(NY + 1):
+                    g11, g01, g00, g10 = grad(i, j), grad(i - 1, j), grad(i - 1, j - 1), grad(i, j - 1)
+                    div = 0.5 * ((g10[0] - g00[0] + g11[0] - g01[0]) / wx + (g01[1] - g00[1] + g11[1] - g10[1]) / wy)
+                    fx = 0.5 if (j == 0 or j == NY) else 1.0
+                    fy = 0.5 if (i == 0 or i == NX) else 1.0
+                    a = pm[i][j][0]
+                    lap = 0.0
+                    if i > 0:
+                        lap += fx * (pm[i - 1][j][0] - a) / wx ** 2
+                    if i < NX:
+                        lap += fx * (pm[i + 1][j][0] - a) / wx ** 2
+                    if j > 0:
+                        lap += fy * (pm[i][j - 1][0] - a) / wy ** 2
+                    if j < NY:
+                        lap += fy * (pm[i][j + 1][0] - a) / wy ** 2
+                    bn += div * div
+                    rn += (lap - div) ** 2
+            if bn < 1e-12:
+                c.inconc("merge %s: gradients of %s have zero divergence" % (cls, gn))
+                bad = True
+                continue
+            rel = math.sqrt(rn / bn)
+            vals = [pm[i][j][0] for i in range(NX + 1) for j in range(NY + 1)]
+            surf[pn] = vals
+            # the files carry 14 digits; the solver was asked for 1e-10
+            if rel > 1e-6:
+                c.violation("merge:poisson_residual:%s:%s" % (pn, cls), "2-D %s, %dx%d bins, data from inputPrefix, %d steps: |Lap(out.%s) - div(out.%s)| / |div| = %.3g "
+                            "(solver tolerance 1e-10); the surface spans %.4g" % (cls, NX, NY, case["nsteps"], pn, gn, rel, max(vals) - min(vals)),
+                            [sp, fp, fg], payload={"config": case["cfg"]})
+                bad = True
+                continue
+            c.bump("merge_surfaces_checked")
+        if bad:
+            continue
+        if case["ext"] and case["nsteps"] == 0 and "pmf" in surf and "czar.pmf" in surf:
+            ma = sum(surf["pmf"]) / len(surf["pmf"])
+            mb = sum(surf["czar.pmf"]) / len(surf["czar.pmf"])
+            dev = max(abs((x - ma) - (y - mb)) for x, y in zip(surf["pmf"], surf["czar.pmf"]))
+            if dev > 1e-6 * max(1.0, max(surf["pmf"]) - min(surf["pmf"])):
+                c.violation("merge:czar_vs_abf_surface:" + cls, "same gradient data for both estimators, zero-step run: out.czar.pmf differs from out.pmf by %.3g "
+                            "(constant removed)" % dev, [sp], payload={"config": case["cfg"]})
+                continue
+        c.nontrivial("merge|2d|%s" % cls)
+
+
 def run(tier, replay):
     c = common.Check(PID, tier)
     c.rule = ("distinct (law, dimension, periodicity pattern, sub-law / smoothing / arrival-order class) with a "
@@ -1108,6 +1258,7 @@ def run(tier, replay):
     process(c, "plain", jobs["incr"], 6, 600, results)
     process(c, "plain", jobs["e2e"], 1, 600, results)
     run_ti_pmf(c, tier)
+    run_abf_merge(c, tier)
     # a sample of every workload under ASan+UBSan (fatal reports)
     try:
         vbuild.tool("asan", "h_poisson")
